@@ -22,7 +22,8 @@ REACH_MIN = {"retried_attempts": {"quick": 150, "thorough": 4000},
              "second_batches": {"quick": 200, "thorough": 6000},
              "retry_timers": {"quick": 150, "thorough": 4000},
              "batches_resolved": {"quick": 400, "thorough": 10000},
-             "leader_moves": {"quick": 60, "thorough": 1500}}
+             "leader_moves": {"quick": 60, "thorough": 1500},
+             "acks0_partial_failures": {"quick": 15, "thorough": 400}}
 
 
 def cases(tier, seed):
@@ -263,6 +264,35 @@ def check(res, tr, timers, resolved):
         if not got and cfg["acks"] != 0:
             per_burst[a_["burst"]][1] += 1
     res.hit("mixed_outcome_attempts", sum(1 for ok_, bad_ in per_burst.values() if ok_ and bad_))
+    # 4' the same for acks=0, where "acknowledged" can only mean "handed to the connection": a payload that reached
+    # its broker while a sibling broker's request failed is neither sent again nor held back until the sibling's retry
+    if cfg["acks"] == 0:
+        for ai, a in enumerate(attempts):
+            for tp, recs in a["payloads"].items():
+                my_sends = sorted(set(s for s in (prod.send_of(k, v) for (k, v) in recs) if s is not None))
+                if not my_sends:
+                    continue
+                later = [b for b in attempts[ai + 1:] if b["burst"] > a["burst"] and any(
+                    prod.send_of(k, v) in my_sends for recs2 in b["payloads"].values() for (k, v) in recs2)]
+                for s in my_sends:
+                    rec = tr.sends.get(s)
+                    if rec is None or (rec["cancelled"] is not None):
+                        continue
+                    mates = [x for x, b_ in batch_of.items() if b_ == batch_of.get(s)]
+                    nxt = [b for b in attempts[ai + 1:] if b["burst"] > a["burst"] and any(
+                        prod.send_of(k, v) in mates for recs2 in b["payloads"].values() for (k, v) in recs2)]
+                    if not nxt:
+                        continue
+                    res.hit("acks0_partial_failures")
+                    if later:
+                        res.violate("acks0-written-payload-resent", "acks=0: a payload that had reached its broker was "
+                                    "written again when a sibling's request was retried", tp=tp, sends=my_sends)
+                    elif fire_idx.get(s, 10 ** 9) > nxt[0]["first"]["idx"]:
+                        res.violate("acks0-written-not-reported-at-once", "acks=0: the payload of send %r reached its "
+                                    "broker in the first attempt, a sibling partition's request failed, and the send "
+                                    "was reported only after the sibling's retry had been written (or never)" % s,
+                                    tp=tp, fired=bool(rec["fires"]))
+                    res.ob("acks0_written_reported_at_once")
     # 4 only failed payloads are retried; acknowledged ones reported at once
     for ai, a in enumerate(attempts):
         evs = ev_by.get(a["corr"], [])
